@@ -280,6 +280,11 @@ func (ms *Modules) process() []error {
 	for _, m := range ms.Modules {
 		mods = append(mods, m)
 	}
+	// A submodule is normally reached through the module that includes it,
+	// but it may have been read without that module.
+	for _, m := range ms.SubModules {
+		mods = append(mods, m)
+	}
 	for _, m := range mods {
 		if err := ms.include(m); err != nil {
 			errs = append(errs, err)
